@@ -21,12 +21,14 @@ import (
 // in EXISTENTIAL-LOOP: can the first block of the body reach a block that starts another
 // iteration?  yes: ok; no and every way out is a return: violation; no and some way out is a
 // break/goto: undecided.
+// Second clause (key suffix .success): no return statement inside such a loop reports success (a
+// nil error): the function may only succeed after the loop has examined every element.
 func init() {
 	register(&Rule{
 		Name:  "UNIVERSAL-LOOP",
 		IR:    "cfg",
 		Props: []string{"C37"},
-		Floor: 3, // ValidateArea (2 loops), pathPoints
+		Floor: 6, // ValidateArea (2 loops), pathPoints; each with its .success clause
 		Doc: "in ingest.ValidateFeature and the error-returning module functions it reaches by static calls, no for/range loop leaves the function on every path of its first iteration: " +
 			"validation must examine every element (a `return check(x)` inside the loop validates the first element only)",
 		Run: runUniversalLoop,
@@ -88,6 +90,31 @@ func runUniversalLoop(c *Ctx) []Obligation {
 		}
 		g := newCFG(fp.TypesInfo, fd.Body)
 		for i, loop := range loops {
+			// second clause: a success return inside the loop declares the whole feature valid although the
+			// remaining elements have not been examined (`return nil` where `continue` was meant)
+			var lbody *ast.BlockStmt
+			switch l := loop.(type) {
+			case *ast.ForStmt:
+				lbody = l.Body
+			case *ast.RangeStmt:
+				lbody = l.Body
+			}
+			sob := Obligation{Key: gNthKey(name, i+1) + ".success", Pos: c.Position(loop.Pos()), Status: OK,
+				Detail: "no return inside the loop reports success: the function can only succeed after the loop has examined every element"}
+			inspectShallow(lbody, func(n ast.Node) bool {
+				r, ok := n.(*ast.ReturnStmt)
+				if !ok || len(r.Results) == 0 {
+					return true
+				}
+				if id, ok := ast.Unparen(r.Results[len(r.Results)-1]).(*ast.Ident); ok && id.Name == "nil" && sob.Status == OK {
+					sob.Status = Violation
+					sob.Pos = c.Position(r.Pos())
+					sob.Detail = fmt.Sprintf("`%s` at %s inside the loop at %s ends validation with success as soon as one element takes that branch: the elements after it are never examined (a `continue` was probably meant)",
+						nodeText(c.Fset, r), c.Position(r.Pos()), c.Position(loop.Pos()))
+				}
+				return true
+			})
+			out = append(out, sob)
 			ob := Obligation{Key: gNthKey(name, i+1), Pos: c.Position(loop.Pos())}
 			body, iter, _ := gLoopBlocks(g, loop)
 			if body == nil {
